@@ -426,7 +426,8 @@ class Recfile(object):
 
         data = numpy.zeros(nrows, dtype=dtype)
 
-        self.robj.read_columns(data, colnums, rows)
+        if nrows > 0:
+            self.robj.read_columns(data, colnums, rows)
 
         return data
 
@@ -538,12 +539,13 @@ class Recfile(object):
 
         data = numpy.zeros(nrows, dtype=self.dtype)
 
-        self.robj.read_binary_slice(
-            data,
-            int(arg.start),
-            int(arg.stop),
-            int(arg.step),
-        )
+        if nrows > 0:
+            self.robj.read_binary_slice(
+                data,
+                int(arg.start),
+                int(arg.stop),
+                int(arg.step),
+            )
 
         if split:
             return split_fields(data)
@@ -612,50 +614,25 @@ class Recfile(object):
         return result, isrows, isslice
 
     def _process_slice(self, arg):
-        start = arg.start
-        stop = arg.stop
-        step = arg.step
+        # python slice semantics; only positive steps are supported
+        start, stop, step = self._slice_indices(arg.start, arg.stop, arg.step)
+        return slice(start, stop, step)
 
+    def _slice_indices(self, start, stop, step):
         if step is None:
             step = 1
-        if start is None:
-            start = 0
-        if stop is None:
-            stop = self.nrows
-        elif stop > self.nrows:
-            stop = self.nrows
+        if step < 0:
+            raise ValueError("slice step must be positive, got %s" % step)
 
-        if start < 0:
-            start = self.nrows + start
-            if start < 0:
-                raise IndexError("Index out of bounds")
-
-        if stop < 0:
-            stop = self.nrows + stop
-
+        start, stop, step = slice(start, stop, step).indices(self.nrows)
         if stop < start:
             # will return an empty struct
             stop = start
-
-        return slice(start, stop, step)
+        return start, stop, step
 
     def _slice2rows(self, start, stop, step=None):
-        if start is None:
-            start = 0
-        if stop is None:
-            stop = self.nrows
-        if step is None:
-            step = 1
-
-        tstart = self._fix_range(start)
-        tstop = self._fix_range(stop)
-        # if tstart == 0 and tstop == self.nrows:
-        #    # this is faster: if all fields are also requested, then a
-        #    # single fread will be done
-        #    return None
-        if tstop < tstart:
-            raise ValueError("start is greater than stop in slice")
-        return numpy.arange(tstart, tstop, step, dtype="i8")
+        start, stop, step = self._slice_indices(start, stop, step)
+        return numpy.arange(start, stop, step, dtype="i8")
 
     def _fix_range(self, num, isslice=True):
         """
@@ -692,6 +669,10 @@ class Recfile(object):
         # should we do this sort, or assume sorted?
 
         rows2read = numpy.unique(rows2read)
+
+        if rows2read.size == 0:
+            # e.g. an empty slice: nothing to read
+            return rows2read
 
         rmin = rows2read[0]
         rmax = rows2read[-1]
